@@ -36,10 +36,11 @@ static unsigned char inv(unsigned char a)
 /* generator row r (0..k+m-1), column j (0..k-1): identity on top, 1/(r ^ j) below */
 static unsigned char gen(int k, int r, int j) { return r < k ? (unsigned char)(r == j) : inv((unsigned char)(r ^ j)); }
 
-static __thread int TRAILER;     /* padding_size of the call being served */
-static void trailer(char *buf, size_t blocksize, int idx)
+/* (no thread-local state in this plug-in: it is unmapped with its last instance, and LeakSanitizer's scan of a thread's TLS
+ *  blocks does not survive a module with TLS that has gone) */
+static void trailer(char *buf, size_t blocksize, int idx, int tlen)
 {
-    for (int b = 0; b < TRAILER; b++) buf[blocksize + (size_t)b] = (char)(0xC3 ^ (idx * 5) ^ (b * 3));
+    for (int b = 0; b < tlen; b++) buf[blocksize + (size_t)b] = (char)(0xC3 ^ (idx * 5) ^ (b * 3));
 }
 
 /* recover all data payloads from any k available rows (Gaussian elimination over GF(2^8)) */
@@ -72,7 +73,7 @@ static int recover_data(char **bufs, size_t blocksize, const int *missing, int n
     return 0;
 }
 
-static int rebuild(char **bufs, size_t blocksize, const int *want, int nwant, const int *missing, int nmissing, int k, int m)
+static int rebuild(char **bufs, size_t blocksize, const int *want, int nwant, const int *missing, int nmissing, int k, int m, int tlen)
 {
     int n = k + m;
     unsigned char *tmpdata[256]; unsigned char *owned[256]; memset(owned, 0, sizeof owned);
@@ -90,7 +91,7 @@ static int rebuild(char **bufs, size_t blocksize, const int *want, int nwant, co
                 memset(out, 0, blocksize);
                 for (int j = 0; j < k; j++) { unsigned char c = gen(k, d, j); const unsigned char *s = tmpdata[j]; for (size_t b = 0; b < blocksize; b++) out[b] ^= mul(c, s[b]); }
             }
-            trailer(bufs[d], blocksize, d);
+            trailer(bufs[d], blocksize, d, tlen);
         }
     }
     for (int j = 0; j < k; j++) free(owned[j]);
@@ -116,7 +117,6 @@ int matrix_encode(char *pre, char *kmux, char **bufs, int k, int m, int w, int h
     (void)pre; (void)kmux; (void)w; (void)hd;
     __atomic_fetch_add(&phazr_ref_encode_calls, 1, __ATOMIC_RELAXED);
     if (!bufs || k < 1 || m < 0 || k + m > 255 || blocksize < 0 || padding_size < 0) return -1;
-    TRAILER = padding_size;
     for (int i = 0; i < k; i++) memmove(bufs[i], bufs[i] + padding_size, (size_t)blocksize);
     for (int p = 0; p < m; p++) {
         unsigned char *out = (unsigned char *)bufs[k + p];
@@ -127,7 +127,7 @@ int matrix_encode(char *pre, char *kmux, char **bufs, int k, int m, int w, int h
             for (int b = 0; b < blocksize; b++) out[b] ^= mul(c, d[b]);
         }
     }
-    for (int i = 0; i < k + m; i++) trailer(bufs[i], (size_t)blocksize, i);
+    for (int i = 0; i < k + m; i++) trailer(bufs[i], (size_t)blocksize, i, padding_size);
     return 0;
 }
 
@@ -138,8 +138,7 @@ int matrix_decode(char *inv_, char *kmux, char **bufs, int *missing, int k, int 
     if (!bufs || !missing || k < 1 || m < 0 || k + m > 255 || blocksize < 0 || padding_size < 0) return -1;
     int nm = count_missing(missing);
     if (nm > m) return -2;
-    TRAILER = padding_size;
-    return -rebuild(bufs, (size_t)blocksize, missing, nm, missing, nm, k, m);
+    return -rebuild(bufs, (size_t)blocksize, missing, nm, missing, nm, k, m, padding_size);
 }
 
 int matrix_reconstruct(char *kmux, char **bufs, int *missing, int destination, int k, int m, int w, int blocksize, int padding_size)
@@ -149,6 +148,5 @@ int matrix_reconstruct(char *kmux, char **bufs, int *missing, int destination, i
     if (!bufs || !missing || k < 1 || m < 0 || k + m > 255 || blocksize < 0 || padding_size < 0) return -1;
     int nm = count_missing(missing);
     if (nm > m) return -2;
-    TRAILER = padding_size;
-    return -rebuild(bufs, (size_t)blocksize, &destination, 1, missing, nm, k, m);
+    return -rebuild(bufs, (size_t)blocksize, &destination, 1, missing, nm, k, m, padding_size);
 }
